@@ -260,8 +260,12 @@ func (fr *Frame) applyContract(in ssa.Instruction, callee *ssa.Function, sp *Fun
 	if sp.ModAll {
 		e.havocAll(fr.st)
 	} else {
+		// the locations of a modifies clause denote pre-state locations: evaluate every
+		// clause in the pre-call state, so that an earlier clause's havoc does not redirect a later one
+		penv := *env
+		penv.st = old
 		for _, m := range sp.Modifies {
-			if err := env.havocLoc(m.E, fr.st); err != nil {
+			if err := penv.havocLoc(m.E, fr.st); err != nil {
 				e.errs = append(e.errs, fmt.Sprintf("%s: %v", m.Line, err))
 			}
 		}
